@@ -42,19 +42,33 @@ def replay_queue(run, oi):
   cap = run.objs[oi].locking_deque.deque.maxlen
   d = collections.deque(maxlen=cap)
   displaced, pops, adds = [], [], []
+  # the queue as the API defines it: posts take effect when the event is stored, the
+  # consumer takes the front; internal rotations are not part of it
+  abstract = []
+  not_front = []
   for seq, tn, op, payload, t_us in run.queue_ops(oi):
+    if op == 'popleft':
+      if abstract and (abstract[0] is not payload and abstract[0] != payload):
+        not_front.append((seq, tn, payload, list(abstract)))
+      if payload in abstract:
+        abstract.remove(payload)
+    elif op == 'pop':
+      if payload in abstract:
+        abstract.reverse(); abstract.remove(payload); abstract.reverse()
     if op == 'append':
       n = len(d)
       if cap is not None and n >= cap:
         displaced.append(d[0])
       d.append(payload)
       adds.append((seq, tn, op, payload, t_us, len(d) - 1, n))
+      abstract = list(d)
     elif op == 'appendleft':
       n = len(d)
       if cap is not None and n >= cap:
         displaced.append(d[-1])
       d.appendleft(payload)
       adds.append((seq, tn, op, payload, t_us, 0, n))
+      abstract = list(d)
     elif op == 'popleft':
       if d:
         d.popleft()
@@ -68,7 +82,8 @@ def replay_queue(run, oi):
     elif op == 'clear':
       displaced.extend(d)
       d.clear()
-  return {'displaced': displaced, 'final': list(d), 'pops': pops, 'adds': adds}
+      abstract = []
+  return {'displaced': displaced, 'final': list(d), 'pops': pops, 'adds': adds, 'not_front': not_front}
 
 
 def timer_appends(run, oi):
